@@ -232,3 +232,28 @@ def h_after_twin(code: int, lwt: int, ev: List[int]) -> bool:
         return _after_work(_kind(), code, lwt, ev, True)
     except Prune:
         return True
+
+
+# ---------------------------------------------------------------------------
+# stub validation: the pool world replaces billiard.pool.human_status by a recorder (formatting a symbolic status would realise
+# it).  The real function is what the supervisor calls while reaping a dead worker and while building the WorkerLostError, so
+# it has to be total: any status a process can end with, named signal or not, gives a text naming it.
+
+def v_human_status(tier_name):
+    import billiard.common as bc
+    cases = 0
+    for status in list(range(-64, 0)) + list(range(0, 256)):
+        cases += 1
+        try:
+            text = bc.human_status(status)
+        except Exception as exc:
+            return {'status': 'refuted', 'messages': ['human_status(%d) raises %s: the supervisor dies reaping a worker that ended with this status' % (status, type(exc).__name__)],
+                    'cases': cases}
+        if not isinstance(text, str) or not text:
+            return {'status': 'refuted', 'messages': ['human_status(%d) is not a text: %r' % (status, text)], 'cases': cases}
+        if status < 0 and str(-status) not in text:
+            return {'status': 'refuted', 'messages': ['human_status(%d) does not name signal %d: %r' % (status, -status, text)], 'cases': cases}
+        if status >= 0 and str(status) not in text:
+            return {'status': 'refuted', 'messages': ['human_status(%d) does not name the exit code: %r' % (status, text)], 'cases': cases}
+    return {'status': 'confirmed', 'cases': cases, 'nontrivial_witness': True,
+            'detail': 'billiard.common.human_status is total on exit codes 0..255 and signals 1..64 and names the number (%d cases)' % cases}
